@@ -6,6 +6,7 @@ import (
 	"crypto/elliptic"
 	"fmt"
 	"math/big"
+	"sync"
 
 	"github.com/emmansun/gmsm/ecdh"
 	"github.com/emmansun/gmsm/sm2"
@@ -222,6 +223,16 @@ func plainECDH(t *engine.T, ds, rs []named) {
 	}
 }
 
+var smallYOnce struct {
+	sync.Once
+	p ecref.Point
+}
+
+func smallYPoint() ecref.Point {
+	smallYOnce.Do(func() { smallYOnce.p = ecref.SmallYPoints(ref, 1)[0] })
+	return smallYOnce.p
+}
+
 // invalidPoints returns named invalid "points" as big.Int pairs, derived from a valid point p.
 func invalidPoints(p ecref.Point) []struct {
 	name string
@@ -236,6 +247,8 @@ func invalidPoints(p ecref.Point) []struct {
 			break
 		}
 	}
+	// a valid point with a small ordinate so that y+p still fits 256 bits (root of the cubic x^3 - 3x + b - y^2)
+	smallY := smallYPoint()
 	p256 := elliptic.P256().Params()
 	out := []struct {
 		name string
@@ -249,6 +262,9 @@ func invalidPoints(p ecref.Point) []struct {
 		{"off-curve/(0,y)", new(big.Int), p.Y},
 		{"off-curve/(x,0)", p.X, new(big.Int)},
 		{"x>=p/x+p", new(big.Int).Add(small.X, P), small.Y},
+		{"y>=p/y+p", smallY.X, new(big.Int).Add(smallY.Y, P)},
+		{"x>=p,y>=p/both+p", new(big.Int).Add(small.X, P), new(big.Int).Add(small.Y, P)},
+		{"y=p", p.X, new(big.Int).Set(P)},
 		{"y>=p/y+p(257bit)", p.X, new(big.Int).Add(p.Y, P)},
 		{"x>=p/x+p(257bit)", new(big.Int).Add(p.X, P), p.Y},
 		{"x=p", new(big.Int).Set(P), p.Y},
